@@ -209,8 +209,8 @@ def apply_step(stack, st, descs, nm=IDENT):
         kw = {}
         if len(st[2]) > 0:
             kw["reverse"] = [nm.c(c) for c in st[2]]
-        if st[3] > 0:
-            kw["limit"] = st[3]
+        if st[3] != 0:
+            kw["limit"] = st[3] if st[3] > 0 else 0      # -1 encodes an explicit limit=0
         new = top.order_rows([nm.c(c) for c in st[1]], **kw)
     elif op in ("join", "joinc"):
         left = stack[-2]
